@@ -30,6 +30,11 @@ structure Raw (O α : Type) where
   terminated : Bool
   truncated : Bool
   resetObs : O
+  /-- what the `info` dict returned by `step()` *already contains* under `"terminal_observation"` /
+  `"TimeLimit.truncated"`: nothing for an environment that builds a new dict per step; the entries the vectorised
+  environment wrote at an earlier episode end for an environment that returns one dict object all its life. -/
+  staleTerminal : Option O
+  staleTimeLimit : Bool
 
 /-- What `collect_rollouts` receives from `env.step` for one sub-environment: `new_obs[e]`, `rewards[e]`,
 `dones[e]`, `infos[e].get("terminal_observation")`, `infos[e].get("TimeLimit.truncated", False)`. -/
@@ -41,15 +46,27 @@ structure VOut (O α : Type) where
   timeLimit : Bool
 
 /-- `DummyVecEnv.step_wait` for one sub-environment: `done = terminated or truncated`,
-`TimeLimit.truncated = truncated and not terminated`; on `done` the last observation goes to
-`terminal_observation` and the observation returned is the one of the reset. -/
+`TimeLimit.truncated = truncated and not terminated` (written at *every* step); on `done` the last observation goes
+to `terminal_observation` and the observation returned is the one of the reset. When the episode goes on the
+`terminal_observation` key is not touched: whatever the environment's info dict carries stays. -/
 def vecOut {O α : Type} (r : Raw O α) : VOut O α :=
   let done := r.terminated || r.truncated
   { obs := if done then r.resetObs else r.obs
     reward := r.reward
     done := done
-    terminalObs := if done then some r.obs else none
+    terminalObs := if done then some r.obs else r.staleTerminal
     timeLimit := r.truncated && !r.terminated }
+
+/-- A vectorised environment that annotates *finished episodes only* (both keys written on `done`, nothing
+touched otherwise): with a reused info dict a stale `TimeLimit.truncated = True` and a stale
+`terminal_observation` are then visible on later, non-terminal steps. `dones` is what tells them apart. -/
+def vecOutLazy {O α : Type} (r : Raw O α) : VOut O α :=
+  let done := r.terminated || r.truncated
+  { obs := if done then r.resetObs else r.obs
+    reward := r.reward
+    done := done
+    terminalObs := if done then some r.obs else r.staleTerminal
+    timeLimit := if done then r.truncated && !r.terminated else r.staleTimeLimit }
 
 /-! ### What the policy delivers -/
 
